@@ -321,22 +321,22 @@ type EdgeFilter func(from *ssa.BasicBlock, idx int) bool
 
 // ReachableFrom returns blocks reachable from start (inclusive) with some edges removed.
 func ReachableFrom(start *ssa.BasicBlock, removed EdgeFilter) map[*ssa.BasicBlock]bool {
-	seen := map[*ssa.BasicBlock]bool{start: true}
-	work := []*ssa.BasicBlock{start}
+	res := map[*ssa.BasicBlock]bool{start: true}
+	st := node{start, -1}
+	seen := map[node]bool{st: true}
+	work := []node{st}
 	for len(work) > 0 {
-		b := work[len(work)-1]
+		n := work[len(work)-1]
 		work = work[:len(work)-1]
-		for i, s := range b.Succs {
-			if removed != nil && removed(b, i) {
-				continue
+		succNodes(n, removed, func(_ int, next node) {
+			res[next.b] = true
+			if !seen[next] {
+				seen[next] = true
+				work = append(work, next)
 			}
-			if !seen[s] {
-				seen[s] = true
-				work = append(work, s)
-			}
-		}
+		})
 	}
-	return seen
+	return res
 }
 
 // Guarded reports whether the instruction's block is unreachable from the
@@ -350,17 +350,120 @@ func Guarded(site ssa.Instruction, guard EdgeFilter) bool {
 	return !ReachableFrom(fn.Blocks[0], guard)[site.Block()]
 }
 
+// condOverride: while a search traverses a "short-circuit" block (a block that
+// only merges the value of an && / || expression in a phi and branches on
+// it) entered through a known predecessor, the phi stands for the operand
+// that predecessor supplies. Edge filters see that operand through Truth.
+var condOverride = map[*ssa.Phi]ssa.Value{}
+
 // Truth strips negations from a branch condition: returns the underlying
 // value and whether taking successor idx makes that value true.
 func Truth(cond ssa.Value, idx int) (ssa.Value, bool) {
 	truth := idx == 0
-	for {
+	for i := 0; i < 16; i++ {
 		if u, ok := cond.(*ssa.UnOp); ok && u.Op == token.NOT {
 			cond = u.X
 			truth = !truth
 			continue
 		}
-		return cond, truth
+		if phi, ok := cond.(*ssa.Phi); ok {
+			if o, ok := condOverride[phi]; ok && o != nil {
+				cond = o
+				continue
+			}
+		}
+		break
+	}
+	return cond, truth
+}
+
+// node is a CFG block, possibly specialised to the predecessor it was entered from.
+type node struct {
+	b   *ssa.BasicBlock
+	via int // predecessor index for short-circuit blocks, -1 otherwise
+}
+
+// shortCircuit: b consists only of phis (and debug refs) followed by an If on one of its own bool phis (through negations).
+func shortCircuit(b *ssa.BasicBlock) *ssa.Phi {
+	iff := BlockIf(b)
+	if iff == nil {
+		return nil
+	}
+	c := iff.Cond
+	for {
+		if u, ok := c.(*ssa.UnOp); ok && u.Op == token.NOT {
+			c = u.X
+			continue
+		}
+		break
+	}
+	phi, ok := c.(*ssa.Phi)
+	if !ok || phi.Block() != b {
+		return nil
+	}
+	for _, in := range b.Instrs[:len(b.Instrs)-1] {
+		switch x := in.(type) {
+		case *ssa.Phi, *ssa.DebugRef:
+		case *ssa.UnOp:
+			if x.Op != token.NOT {
+				return nil
+			}
+		default:
+			return nil
+		}
+	}
+	return phi
+}
+
+func enter(from *ssa.BasicBlock, succIdx int) node {
+	s := from.Succs[succIdx]
+	if shortCircuit(s) == nil {
+		return node{s, -1}
+	}
+	// which predecessor slot does this edge occupy (duplicate edges keep their order)
+	nth := 0
+	for i := 0; i < succIdx; i++ {
+		if from.Succs[i] == s {
+			nth++
+		}
+	}
+	for k, p := range s.Preds {
+		if p == from {
+			if nth == 0 {
+				return node{s, k}
+			}
+			nth--
+		}
+	}
+	return node{s, -1}
+}
+
+// succNodes enumerates the feasible, not removed out-edges of n.
+func succNodes(n node, removed EdgeFilter, visit func(idx int, next node)) {
+	var phi *ssa.Phi
+	if n.via >= 0 {
+		phi = shortCircuit(n.b)
+	}
+	if phi != nil {
+		condOverride[phi] = phi.Edges[n.via]
+		defer delete(condOverride, phi)
+	}
+	for i := range n.b.Succs {
+		if phi != nil {
+			// a constant operand decides the branch
+			if iff := BlockIf(n.b); iff != nil {
+				v, truth := Truth(iff.Cond, i)
+				if c, ok := v.(*ssa.Const); ok && c.Value != nil && c.Value.Kind() == constant.Bool {
+					if constant.BoolVal(c.Value) != truth {
+						continue
+					}
+				}
+			}
+		}
+		if removed != nil && removed(n.b, i) {
+			continue
+		}
+		visit(i, enter(n.b, i))
 	}
 }
 
@@ -371,7 +474,7 @@ func Truth(cond ssa.Value, idx int) (ssa.Value, bool) {
 // true that is reachable on an uncut path, or nil when none is.
 func PathSearch(fn *ssa.Function, from ssa.Instruction, target, stop func(ssa.Instruction) bool, removed EdgeFilter) ssa.Instruction {
 	type pt struct {
-		b *ssa.BasicBlock
+		n node
 		i int
 	}
 	var start pt
@@ -383,21 +486,21 @@ func PathSearch(fn *ssa.Function, from ssa.Instruction, target, stop func(ssa.In
 				idx = k + 1
 			}
 		}
-		start = pt{b, idx}
+		start = pt{node{b, -1}, idx}
 	} else {
 		if len(fn.Blocks) == 0 {
 			return nil
 		}
-		start = pt{fn.Blocks[0], 0}
+		start = pt{node{fn.Blocks[0], -1}, 0}
 	}
-	seen := map[*ssa.BasicBlock]bool{}
+	seen := map[node]bool{}
 	work := []pt{start}
 	for len(work) > 0 {
 		p := work[len(work)-1]
 		work = work[:len(work)-1]
 		cut := false
-		for k := p.i; k < len(p.b.Instrs); k++ {
-			in := p.b.Instrs[k]
+		for k := p.i; k < len(p.n.b.Instrs); k++ {
+			in := p.n.b.Instrs[k]
 			if stop != nil && stop(in) {
 				cut = true
 				break
@@ -409,15 +512,12 @@ func PathSearch(fn *ssa.Function, from ssa.Instruction, target, stop func(ssa.In
 		if cut {
 			continue
 		}
-		for i, s := range p.b.Succs {
-			if removed != nil && removed(p.b, i) {
-				continue
+		succNodes(p.n, removed, func(_ int, next node) {
+			if !seen[next] {
+				seen[next] = true
+				work = append(work, pt{next, 0})
 			}
-			if !seen[s] {
-				seen[s] = true
-				work = append(work, pt{s, 0})
-			}
-		}
+		})
 	}
 	return nil
 }
@@ -525,47 +625,49 @@ func GuardedPS(site ssa.Instruction, guard EdgeFilter) bool {
 	if len(fn.Blocks) == 0 {
 		return false
 	}
+	conds := branchConds(fn)
 	count := map[ssa.Value]int{}
-	for _, b := range fn.Blocks {
-		if i := BlockIf(b); i != nil {
-			v, _ := Truth(i.Cond, 0)
-			count[v]++
-		}
+	for _, v := range conds {
+		count[v]++
 	}
 	var multi []ssa.Value
 	idx := map[ssa.Value]int{}
-	for _, b := range fn.Blocks { // deterministic order
-		if i := BlockIf(b); i != nil {
-			v, _ := Truth(i.Cond, 0)
-			if count[v] >= 2 {
-				if _, ok := idx[v]; !ok && len(multi) < 14 {
-					idx[v] = len(multi)
-					multi = append(multi, v)
-				}
+	for _, v := range conds { // deterministic order
+		if count[v] >= 2 {
+			if _, ok := idx[v]; !ok && len(multi) < 14 {
+				idx[v] = len(multi)
+				multi = append(multi, v)
 			}
 		}
 	}
 	type state struct {
-		b    *ssa.BasicBlock
-		asg  uint32 // 2 bits per multi cond: 0 unknown, 1 true, 2 false
+		n   node
+		asg uint32 // 2 bits per multi cond: 0 unknown, 1 true, 2 false
 	}
 	target := site.Block()
-	start := state{fn.Blocks[0], 0}
-	if start.b == target {
+	start := state{node{fn.Blocks[0], -1}, 0}
+	if start.n.b == target {
 		return false
 	}
 	seen := map[state]bool{start: true}
 	work := []state{start}
-	for len(work) > 0 {
+	reached := false
+	for len(work) > 0 && !reached {
 		s := work[len(work)-1]
 		work = work[:len(work)-1]
-		for i, succ := range s.b.Succs {
-			if guard != nil && guard(s.b, i) {
-				continue
-			}
+		succNodes(s.n, guard, func(i int, next node) {
 			na := s.asg
-			if iff := BlockIf(s.b); iff != nil {
+			if iff := BlockIf(s.n.b); iff != nil {
+				var phi *ssa.Phi
+				if s.n.via >= 0 {
+					if phi = shortCircuit(s.n.b); phi != nil {
+						condOverride[phi] = phi.Edges[s.n.via]
+					}
+				}
 				v, truth := Truth(iff.Cond, i)
+				if phi != nil {
+					delete(condOverride, phi)
+				}
 				if k, ok := idx[v]; ok {
 					cur := (na >> (2 * uint(k))) & 3
 					want := uint32(2)
@@ -573,20 +675,52 @@ func GuardedPS(site ssa.Instruction, guard EdgeFilter) bool {
 						want = 1
 					}
 					if cur != 0 && cur != want {
-						continue // infeasible
+						return // infeasible
 					}
 					na |= want << (2 * uint(k))
 				}
 			}
-			if succ == target {
-				return false
+			if next.b == target {
+				reached = true
+				return
 			}
-			ns := state{succ, na}
+			ns := state{next, na}
 			if !seen[ns] {
 				seen[ns] = true
 				work = append(work, ns)
 			}
+		})
+	}
+	return !reached
+}
+
+// branchConds lists the (negation-stripped) values functions branch on, in
+// block order; a short-circuit block contributes the operands of its phi.
+func branchConds(fn *ssa.Function) []ssa.Value {
+	var out []ssa.Value
+	strip := func(v ssa.Value) ssa.Value {
+		for {
+			if u, ok := v.(*ssa.UnOp); ok && u.Op == token.NOT {
+				v = u.X
+				continue
+			}
+			return v
 		}
 	}
-	return true
+	for _, b := range fn.Blocks {
+		i := BlockIf(b)
+		if i == nil {
+			continue
+		}
+		if phi := shortCircuit(b); phi != nil {
+			for _, e := range phi.Edges {
+				if _, isConst := e.(*ssa.Const); !isConst {
+					out = append(out, strip(e))
+				}
+			}
+			continue
+		}
+		out = append(out, strip(i.Cond))
+	}
+	return out
 }
